@@ -17,16 +17,29 @@ func factsC06() {
 		return true
 	})
 	addStrList("c06SortIngressTieBreak", ret, "ingress.go sortIngress: second key of the order")
-	// rebuildMatchFiles: the maps ranged over (iteration order reaches the layout of the match files)
-	var rng []string
+	// rebuildMatchFiles (repair 8cccd42): the keys of rawhosts are collected, sorted, and the sorted
+	// slice is ranged over; a `range hm.rawhosts` that binds the value would bring Go's map order back
+	var it []string
 	ast.Inspect(methodDecl("pkg/haproxy/types/maps.go", "HostsMap", "rebuildMatchFiles").Body, func(n ast.Node) bool {
-		if r, ok := n.(*ast.RangeStmt); ok {
-			s := c05Expr(r.X)
-			if s == "hm.rawhosts" {
-				rng = append(rng, s)
+		switch v := n.(type) {
+		case *ast.RangeStmt:
+			x := c05Expr(v.X)
+			if x == "hm.rawhosts" {
+				if v.Value != nil {
+					it = append(it, "range-values:"+x)
+				} else {
+					it = append(it, "range-keys:"+x)
+				}
+			}
+			if x == "hostnames" {
+				it = append(it, "range:"+x)
+			}
+		case *ast.CallExpr:
+			if s := c05Expr(v); s == "sort.Strings(hostnames)" {
+				it = append(it, s)
 			}
 		}
 		return true
 	})
-	addStrList("c06RawhostsRange", rng, "maps.go rebuildMatchFiles: range over the rawhosts map")
+	addStrList("c06RawhostsIteration", it, "maps.go rebuildMatchFiles: how the hosts of a map are iterated")
 }
